@@ -418,6 +418,21 @@ PROPS['C17']['trusted_base'] = ['Model/Ntv2.lean is a hand-written model of ntv2
                                 'its two interpolation kernels are proved equal to the regenerated text of the code; numpy '
                                 'round/matmul facts measured and modelled (rint(x*1e6)/1e6; left-to-right sums, exact for '
                                 'float32-exact fields)']
+PROPS['C15']['more_proof_modules'] = ['GeodeVerif.Proofs.C15b']
+PROPS['C15']['coord_modules'] = ['GeodeVerif.Proofs.C15b']
+PROPS['C15']['needs_coord'] = True
+PROPS['C15']['required_theorems'] += ['gen_cart_init', 'gen_geo_init', 'gen_tm_init', 'gen_geo_cart', 'gen_geo_tm', 'gen_cart_geo',
+                                      'gen_cart_tm', 'gen_tm_geo', 'gen_tm_cart', 'gen_notation', 'gen_apply', 'gen_run',
+                                      'gen_same_numbers', 'gen_heights_carried', 'gen_n_value', 'gen_chain_closed_position']
+PROPS['C15']['rule'] = ('regenerated: translator/coord2lean.py turns the constructors and conversion methods of geodepy/coord.py into '
+                        'GenF/Coord.lean (namespace GenCrd) on every run and Proofs/C15b.lean proves each equal to the hand model '
+                        '(for every record Conv of called functions), so the C15 theorems are about the current text of coord.py; '
+                        + PROPS['C15']['rule'])
+PROPS['C15']['trusted_base'] = ['translator/coord2lean.py and the reading it gives to the Python idioms of coord.py (listed in its header: '
+                                'float()/int() as identity on fields of that type, isinstance tests true by typing, `is None` as Option match, '
+                                'notation tests as equality in Crd.Notation, DECAngle(x).hpa() as Conv.decaTo, dec2hpa(field) as Conv.fromFloat, '
+                                'field.hpa() as Conv.fromObj)',
+                                '__repr__, __eq__, __round__ of the coordinate classes stay hand-modelled (correspondence only)'] + PROPS['C15']['trusted_base']
 PROPS['C20']['more_proof_modules'] = ['GeodeVerif.Proofs.C20b']
 PROPS['C20']['api_modules'] = ['GeodeVerif.Proofs.C20b']
 PROPS['C20']['needs_api'] = True
